@@ -180,11 +180,13 @@ def _save_report(path, report, partial):
 
 
 def mutants(names):
-    from mutants.make_mutants import MUTANTS, OTHER_FILES
+    from mutants.make_mutants import MUTANTS, OTHER_FILES, STATIC
 
     MUTANTS = dict(MUTANTS)
     for k, (rel, fn, props) in OTHER_FILES.items():
         MUTANTS[k] = (fn, props)
+    for k, props in STATIC.items():
+        MUTANTS[k] = (None, props)
 
     root = scratch_root()
     report = {}
